@@ -53,7 +53,7 @@ pub fn spec(id: &str) -> Option<PropSpec> {
     };
     match id {
         "C06" => Some(base(
-            vec![cs(&AGG, "agg-protocol", 350, 6000, false), cs(&AGG, "agg-direct", 250, 5000, false), cs(&AGG, "agg-every-n", 12, 63 * 6 * 3, false)],
+            vec![cs(&AGG, "agg-protocol", 350, 6000, false), cs(&AGG, "agg-direct", 250, 5000, false), cs(&AGG, "agg-every-n", 12, 63 * 6 * 3, false), cs(&AGG, "agg-max-n", 6, 48, false)],
             "cases = (group, scheme, list length, list kind {exact, permuted, reversed, one of 12 relay perturbations}, repeated-message flag, reference decision) over arrival histories under loss/duplication/reordering with and without de-duplication at the aggregator; \
              class `agg-every-n` walks n = 2..=64; non-trivial = every list other than the exact one",
             vec!["cur-blst"],
@@ -241,6 +241,7 @@ pub fn spec(id: &str) -> Option<PropSpec> {
                 v.push(cst(&CRYPT, "eg-proof-tamper", 40, 800, mode));
                 v.push(cst(&AGG, "agg-protocol", 20, 400, mode));
                 v.push(cst(&AGG, "multi-protocol", 20, 400, mode));
+                v.push(cst(&AGG, "agg-max-n", 6, 24, mode));
                 v.push(cst(&THRESH, "clean", 20, 400, mode));
                 v.push(cst(&THRESH, "byzantine", 30, 600, mode));
                 v.push(cst(&THRESH, "large", 2, 16, mode));
